@@ -413,10 +413,10 @@ impl<'a, 'b> Gen<'a, 'b> {
     /// A value with at most `depth_left` nesting levels (>= 1).
     pub fn value(&mut self, depth_left: u32) -> RTree {
         if depth_left <= 1 || self.nodes >= self.cfg.max_nodes {
-            return self.leaf();
+            return if self.t.chance(30) { self.empty_container() } else { self.leaf() };
         }
         // containers with nesting
-        match self.t.weighted(&[55, 8, 10, 10, 9, 8]) {
+        match self.t.weighted(&[55, 8, 10, 10, 9, 8, if self.cfg.big { 3 } else { 0 }]) {
             0 => self.leaf(),
             1 => {
                 self.nodes += 1;
@@ -473,11 +473,49 @@ impl<'a, 'b> Gen<'a, 'b> {
                 let f = self.len_form(v.len());
                 RTree::Struct(e, f, v)
             }
-            _ => {
+            5 => {
                 self.nodes += 1;
                 let idr = if self.t.bool() { self.t.below(6) as u64 } else { self.uint(32) };
                 let id = self.varint(idr, 4);
                 RTree::Enum(id, Box::new(self.value(depth_left - 1)))
+            }
+            _ => self.wide_container(),
+        }
+    }
+
+    /// An empty container of a drawn kind (vector, map of any key kind, struct), either epoch: a
+    /// value that nests nothing and therefore sits exactly at the level it is placed at.
+    pub fn empty_container(&mut self) -> RTree {
+        self.nodes += 1;
+        let e = self.epoch();
+        let f = self.len_form(0);
+        match self.t.below(12) {
+            0 => RTree::Vec(e, f, vec![]),
+            1 => RTree::Struct(e, f, vec![]),
+            k => RTree::Map(KEY_KINDS[k - 2], e, f, vec![]),
+        }
+    }
+
+    /// A container whose element count sits on a boundary of the length encodings (single-byte
+    /// varints end at 251; 255/256 are the u8 boundary), filled with one-byte elements.
+    pub fn wide_container(&mut self) -> RTree {
+        self.nodes += 1;
+        let n = *self.t.pick(&[252usize, 251, 253, 254, 255, 256, 257, 250, 300]);
+        let e = self.epoch();
+        let f = self.len_form(n);
+        match self.t.below(4) {
+            0 => RTree::Vec(e, f, (0..n).map(|i| if i % 7 == 3 { RTree::None } else { RTree::U8(i as u8) }).collect()),
+            1 => {
+                let v = (0..n).map(|i| (RKey::Int(self.varint(i as u64, 2)), RTree::U8(i as u8))).collect();
+                RTree::Map(KeyKind::U16, e, f, v)
+            }
+            2 => {
+                let v = (0..n).map(|i| RKey::Int(self.varint(i as u64, 2))).collect();
+                RTree::Set(KeyKind::U16, e, f, v)
+            }
+            _ => {
+                let v = (0..n).map(|i| (self.varint(i as u64, 4), RTree::Bool((i & 1) as u8))).collect();
+                RTree::Struct(e, f, v)
             }
         }
     }
@@ -485,7 +523,9 @@ impl<'a, 'b> Gen<'a, 'b> {
     /// A chain of exactly `d` nesting levels (d >= 1): d-1 nesting steps around a leaf, each
     /// step drawn from every kind that nests.
     pub fn depth_chain(&mut self, d: u32) -> RTree {
-        let mut cur = self.leaf();
+        // the innermost value: a scalar-like leaf or an empty container (which must be accepted at
+        // the deepest permitted level just like a scalar)
+        let mut cur = if self.t.chance(90) { self.empty_container() } else { self.leaf() };
         for _ in 1..d {
             let step = self.t.below(14);
             cur = match step {
